@@ -50,8 +50,11 @@ func nnp(c *Case) {
 		runtime.GOMAXPROCS(nc.GoMaxProcs)
 	}
 	hookInstall()
-	if nc.Mode == "busy" {
-		// CPU-bound goroutines compete for the Ps for the whole run: natural preemption instead of a forced one
+	startBusy := func() {
+		if nc.Mode != "busy" {
+			return
+		}
+		// CPU-bound goroutines compete for the Ps while the judged load runs: natural preemption instead of a forced one
 		for i := 0; i < runtime.GOMAXPROCS(0)+2; i++ {
 			go func() {
 				x := 0
@@ -60,6 +63,9 @@ func nnp(c *Case) {
 				}
 			}()
 		}
+	}
+	if !nc.PresetOnMain {
+		startBusy()
 	}
 	// threads that exist before the load and do not carry the bit
 	var wg sync.WaitGroup
@@ -73,11 +79,12 @@ func nnp(c *Case) {
 		}()
 	}
 	wg.Wait()
+	judging := true
 	var hookTidIn, hookTidOut, attempts int
 	var migrated bool
 	hookCalls := 0
 	seccomp.VerifPoint = func(name string) {
-		if name != "post-prctl" {
+		if name != "post-prctl" || !judging {
 			return
 		}
 		hookCalls++
@@ -120,8 +127,26 @@ func nnp(c *Case) {
 	var probes []uint64
 	if nc.PresetOnMain {
 		// the worker thread exists before the bit is set on the main thread, so it does not inherit it
-		ws := startWorkers(1)
-		presetErr := seccomp.SetNoNewPrivs() // on the main thread (this goroutine is locked to it from init)
+		ws := startWorkers(2)
+		var presetErr error
+		judging = false
+		switch nc.Prior {
+		case "declined-einval":
+			presetErr = seccomp.LoadFilter(seccomp.Filter{NoNewPrivs: true, Flag: seccomp.FilterFlagTSync | 1<<7, Policy: f.Policy})
+		case "declined-divergent":
+			ws[1].do(func() any {
+				return seccomp.LoadFilter(seccomp.Filter{NoNewPrivs: true, Policy: seccomp.Policy{DefaultAction: seccomp.ActionAllow,
+					Syscalls: []seccomp.SyscallGroup{{Names: []string{"getpgrp"}, Action: seccomp.ActionErrno}}}})
+			})
+			presetErr = seccomp.LoadFilter(seccomp.Filter{NoNewPrivs: true, Flag: seccomp.FilterFlagTSync, Policy: f.Policy})
+		default:
+			presetErr = seccomp.SetNoNewPrivs() // on the main thread (this goroutine is locked to it from init)
+		}
+		judging = true
+		startBusy()
+		instMu.Lock()
+		installs = nil
+		instMu.Unlock()
 		mainTid := syscall.Gettid()
 		ws[0].do(func() any {
 			tidBefore = syscall.Gettid()
@@ -138,7 +163,7 @@ func nnp(c *Case) {
 		ins := append([]installed(nil), installs...)
 		instMu.Unlock()
 		emit(map[string]any{"ev": "loaded", "ok": err == nil, "err": errString(err), "tid_before": tidBefore, "tid_after": tidAfter, "main_tid": mainTid, "is_main_pid": mainTid == os.Getpid(),
-			"preset_err": errString(presetErr), "hook_calls": hookCalls, "hook_tid_in": hookTidIn, "hook_tid_out": hookTidOut, "migrated": migrated, "attempts": attempts,
+			"preset_err": errString(presetErr), "prior": nc.Prior, "other_worker_tid": ws[1].tid, "hook_calls": hookCalls, "hook_tid_in": hookTidIn, "hook_tid_out": hookTidOut, "migrated": migrated, "attempts": attempts,
 			"installs": ins, "after": snapshot(), "self": selfStatus, "probe_errnos": probes})
 		emit(map[string]any{"ev": "done"})
 		return
